@@ -40,14 +40,19 @@ const (
 )
 
 var (
-	c16Payer  = fixWallet(0xA1) // A: sender and fee payer
-	c16Other  = fixWallet(0xB2) // B: bystander EOA
-	c16God    = fixWallet(0x60)
-	c16Price  = big.NewInt(1)
-	c16Prims  = []string{"A+1", "A:=0", "B+1", "SET", "DEL", "EVT", "BTP", "STEP", "XFER"}
-	c16PrimsQuick3 = []string{"A:=0", "SET", "EVT", "BTP", "STEP", "XFER"}
-	c16Terms  = []string{"OK", "REVERT", "OOS", "INVALID", "OOB"}
-	c16InData = int64(len(`{"method":"run"}`))
+	c16Payer = fixWallet(0xA1) // A: sender and fee payer
+	c16Other = fixWallet(0xB2) // B: bystander EOA
+	c16God   = fixWallet(0x60)
+	c16Price = big.NewInt(1)
+	// F+1 / XFERF act on a FRESH EOA (never touched before the transaction),
+	// GSET writes storage of a FRESH contract address
+	c16Prims       = []string{"A+1", "A:=0", "B+1", "SET", "DEL", "EVT", "BTP", "STEP", "XFER", "F+1", "XFERF", "GSET"}
+	c16PrimsQuick3 = []string{"A:=0", "SET", "BTP", "STEP", "XFERF", "F+1"}
+	c16PrimsDeep4  = []string{"A:=0", "B+1", "SET", "EVT", "BTP", "STEP", "XFERF", "F+1"}
+	c16FreshEOA    = fixWallet(0xF7).Address()
+	c16FreshCx     = common.MustNewAddressFromString("cx00000000000000000000000000000000000f4e54")
+	c16Terms       = []string{"OK", "REVERT", "OOS", "INVALID", "OOB"}
+	c16InData      = int64(len(`{"method":"run"}`))
 )
 
 // small step limit: default + input + two contractCall units + a bit; the third
@@ -104,14 +109,15 @@ func (v *c16Variant) limit() int64 {
 
 type c16Case struct {
 	Variant int        `json:"variant"`
-	Script  *c16Script `json:"script"`
+	Script  *c16Script `json:"script,omitempty"` // family 1
+	Block   []txSpec   `json:"block,omitempty"`  // family 2 (real transactions, no scripted handler)
 }
 
 // ---- the scripted handler --------------------------------------------------------
 
 // c16Effect is one surviving effect, in program order.
 type c16Effect struct {
-	Kind string // A+1 A:=0 B+1 SET DEL EVT BTP XFER
+	Kind string // A+1 A:=0 B+1 SET DEL EVT BTP XFER F+1 XFERF GSET
 	Pos  int    // global action counter at which it happened (tags events/messages)
 }
 
@@ -233,6 +239,13 @@ func (h *c16Handler) apply(cc contract.CallContext, kind string, tag int) error 
 		if _, err := cc.GetAccountState(sc.score.ID()).SetValue([]byte(c16Key), nil); err != nil {
 			return err
 		}
+	case "F+1":
+		as := cc.GetAccountState(c16FreshEOA.ID())
+		as.SetBalance(new(big.Int).Add(as.GetBalance(), big.NewInt(1)))
+	case "GSET":
+		if _, err := cc.GetAccountState(c16FreshCx.ID()).SetValue([]byte(c16Key), append([]byte("g"), c16Tag(tag)...)); err != nil {
+			return err
+		}
 	case "EVT":
 		cc.OnEvent(sc.score, [][]byte{[]byte("Ev(int)"), c16Tag(tag)}, [][]byte{{2}})
 	case "BTP":
@@ -245,9 +258,9 @@ func (h *c16Handler) apply(cc contract.CallContext, kind string, tag int) error 
 
 // xfer runs a nested *real* transfer handler (contract.TransferHandler obtained
 // from the real contract manager) payer -> other in its own frame.
-func (h *c16Handler) xfer(cc contract.CallContext, value *big.Int) error {
+func (h *c16Handler) xfer(cc contract.CallContext, to module.Address, value *big.Int) error {
 	sc := h.sc
-	th, err := cc.ContractManager().GetCallHandler(sc.payer, sc.other, value, contract.CTypeTransfer, nil)
+	th, err := cc.ContractManager().GetCallHandler(sc.payer, to, value, contract.CTypeTransfer, nil)
 	if err != nil {
 		sc.harnessErrs = append(sc.harnessErrs, "GetCallHandler: "+err.Error())
 		return err
@@ -268,9 +281,13 @@ func (h *c16Handler) run(cc contract.CallContext) error {
 				sc.stepFailed = true
 				return scoreresult.ErrOutOfStep
 			}
-		case "XFER":
-			if st := h.xfer(cc, big.NewInt(1)); st == nil {
-				h.eff = append(h.eff, c16Effect{"XFER", pos})
+		case "XFER", "XFERF":
+			to := sc.other
+			if a == "XFERF" {
+				to = c16FreshEOA
+			}
+			if st := h.xfer(cc, to, big.NewInt(1)); st == nil {
+				h.eff = append(h.eff, c16Effect{a, pos})
 			} else {
 				sc.xferFail++
 			}
@@ -305,7 +322,7 @@ func (h *c16Handler) run(cc contract.CallContext) error {
 		return scoreresult.InvalidParameterError.New("scripted invalid parameter")
 	case "OOB":
 		huge := new(big.Int).Lsh(big.NewInt(1), 120)
-		if st := h.xfer(cc, huge); st != nil {
+		if st := h.xfer(cc, sc.other, huge); st != nil {
 			return st
 		}
 		sc.harnessErrs = append(sc.harnessErrs, "huge nested transfer succeeded")
@@ -319,8 +336,12 @@ func (h *c16Handler) run(cc contract.CallContext) error {
 func (h *c16Handler) runFlat(cc contract.CallContext) error {
 	sc := h.sc
 	for _, e := range sc.flatEff {
-		if e.Kind == "XFER" {
-			if st := h.xfer(cc, big.NewInt(1)); st != nil {
+		if e.Kind == "XFER" || e.Kind == "XFERF" {
+			to := sc.other
+			if e.Kind == "XFERF" {
+				to = c16FreshEOA
+			}
+			if st := h.xfer(cc, to, big.NewInt(1)); st != nil {
 				sc.harnessErrs = append(sc.harnessErrs, "reference transfer failed: "+st.Error())
 				return st
 			}
@@ -337,26 +358,29 @@ func (h *c16Handler) runFlat(cc contract.CallContext) error {
 // ---- observation ---------------------------------------------------------------
 
 type c16Obs struct {
-	Status    int
-	Used      string
-	Price     string
-	Logs      []string
-	Msgs      []string
-	Bloom     string
-	BTPData   string
-	NormHash  string // state hash with payer and treasury balances zeroed
-	PayerBal  string
-	TreasBal  string
-	OtherBal  string
-	ScoreBal  string
-	ScoreVal  string
-	OuterErr  string
-	Effects   []c16Effect
-	Ran       bool
-	NestFail  int
-	NestOK    int
-	XferFail  int
-	StepFail  bool
+	Status     int
+	Used       string
+	Price      string
+	Logs       []string
+	Msgs       []string
+	Bloom      string
+	BTPData    string
+	NormHash   string // state hash with payer and treasury balances zeroed
+	PayerBal   string
+	TreasBal   string
+	OtherBal   string
+	FreshBal   string // balance of the fresh EOA ("<absent>" if the account does not exist)
+	FreshCxBal string
+	FreshCxVal string // storage value of the fresh contract address
+	ScoreBal   string
+	ScoreVal   string
+	OuterErr   string
+	Effects    []c16Effect
+	Ran        bool
+	NestFail   int
+	NestOK     int
+	XferFail   int
+	StepFail   bool
 }
 
 type c16Ctx struct {
@@ -366,6 +390,7 @@ type c16Ctx struct {
 	parents [4]module.Transition
 	pre     [4]*c16Obs // observation of the pre-state itself (balances)
 	refs    [4]map[string]*c16Obs
+	realRef [4]*c16RealObs
 	treas   module.Address
 }
 
@@ -422,6 +447,9 @@ func c16NewCtx() (*c16Ctx, error) {
 		wss := service.VerifWorldSnapshot(tr)
 		c.pre[vi] = &c16Obs{}
 		c.fillState(c.pre[vi], wss)
+		if c.pre[vi].FreshBal != "<absent>" || c.pre[vi].FreshCxBal != "<absent>" {
+			return nil, fmt.Errorf("fresh accounts exist in the pre-state: %+v", *c.pre[vi])
+		}
 		if c.pre[vi].PayerBal != ps || c.pre[vi].ScoreBal != fmt.Sprint(c16ScoreBal) || c.pre[vi].ScoreVal != c16OldValue || c.pre[vi].OtherBal != "7" {
 			return nil, fmt.Errorf("pre-state not installed: %+v", *c.pre[vi])
 		}
@@ -435,6 +463,17 @@ func (c *c16Ctx) fillState(o *c16Obs, wss state.WorldSnapshot) {
 	o.TreasBal = balanceOf(wss, c.treas).String()
 	o.OtherBal = balanceOf(wss, c.sc.other).String()
 	o.ScoreBal = balanceOf(wss, c.sc.score).String()
+	o.FreshBal = "<absent>"
+	if as := wss.GetAccountSnapshot(c16FreshEOA.ID()); as != nil {
+		o.FreshBal = as.GetBalance().String()
+	}
+	o.FreshCxBal, o.FreshCxVal = "<absent>", "<absent>"
+	if as := wss.GetAccountSnapshot(c16FreshCx.ID()); as != nil {
+		o.FreshCxBal = as.GetBalance().String()
+		if v, err := as.GetValue([]byte(c16Key)); err == nil && v != nil {
+			o.FreshCxVal = string(v)
+		}
+	}
 	o.ScoreVal = "<absent>"
 	if as := wss.GetAccountSnapshot(c.sc.score.ID()); as != nil {
 		if v, err := as.GetValue([]byte(c16Key)); err == nil && v != nil {
@@ -533,9 +572,10 @@ func (c *c16Ctx) run(cs *c16Case) (*c16Obs, error) {
 // ---- oracle -----------------------------------------------------------------------
 
 type c16Env struct {
-	r       *ev.Run
-	classes sync.Map
-	twice   int64
+	r         *ev.Run
+	classes   sync.Map
+	twice     int64
+	realCases int64
 }
 
 func (e *c16Env) count(k string) {
@@ -640,9 +680,13 @@ func (e *c16Env) check(c *c16Ctx, cs *c16Case, o *c16Obs) {
 			what = "contract-balance"
 		case o.OtherBal != ref.OtherBal:
 			what = "bystander-balance"
+		case o.FreshBal != ref.FreshBal:
+			what = "fresh-account-balance"
+		case o.FreshCxVal != ref.FreshCxVal || o.FreshCxBal != ref.FreshCxBal:
+			what = "fresh-account-storage"
 		}
-		fail(kind+"-leaves-"+what+"-of-rolled-back-frame", fmt.Sprintf("normalised state hash %s, reference (surviving effects only) %s; storage=%q/%q scoreBal=%s/%s otherBal=%s/%s",
-			o.NormHash, ref.NormHash, o.ScoreVal, ref.ScoreVal, o.ScoreBal, ref.ScoreBal, o.OtherBal, ref.OtherBal))
+		fail(kind+"-leaves-"+what+"-of-rolled-back-frame", fmt.Sprintf("normalised state hash %s, reference (surviving effects only) %s; storage=%q/%q scoreBal=%s/%s otherBal=%s/%s freshEOA=%s/%s freshCx=%s,%q/%s,%q",
+			o.NormHash, ref.NormHash, o.ScoreVal, ref.ScoreVal, o.ScoreBal, ref.ScoreBal, o.OtherBal, ref.OtherBal, o.FreshBal, ref.FreshBal, o.FreshCxBal, o.FreshCxVal, ref.FreshCxBal, ref.FreshCxVal))
 	}
 	if o.BTPData != ref.BTPData {
 		fail(kind+"-btp-digest-differs", fmt.Sprintf("btp digest %s reference %s", o.BTPData, ref.BTPData))
@@ -653,7 +697,7 @@ func (e *c16Env) check(c *c16Ctx, cs *c16Case, o *c16Obs) {
 		switch f.Kind {
 		case "A+1":
 			wantPayer.Add(wantPayer, big.NewInt(1))
-		case "XFER":
+		case "XFER", "XFERF":
 			wantPayer.Sub(wantPayer, big.NewInt(1))
 		}
 	}
@@ -662,6 +706,21 @@ func (e *c16Env) check(c *c16Ctx, cs *c16Case, o *c16Obs) {
 	}
 	if want := new(big.Int).Add(bigOf(pre.TreasBal), fee); bigOf(o.TreasBal).Cmp(want) != 0 {
 		fail(kind+"-treasury-balance", fmt.Sprintf("treasury pre=%s post=%s fee=%s", pre.TreasBal, o.TreasBal, fee))
+	}
+	if !failed {
+		nf := 0
+		for _, f := range surviving {
+			if f.Kind == "F+1" || f.Kind == "XFERF" {
+				nf++
+			}
+		}
+		want := "<absent>"
+		if nf > 0 {
+			want = fmt.Sprint(nf)
+		}
+		if o.FreshBal != want {
+			fail("successful-tx-fresh-account-balance", fmt.Sprintf("fresh EOA balance %s, surviving credits %d", o.FreshBal, nf))
+		}
 	}
 	if used.Cmp(big.NewInt(c16Variants[vi].limit())) > 0 || used.Cmp(big.NewInt(c16Default)) < 0 {
 		fail("stepUsed-out-of-range", fmt.Sprintf("used=%s", used))
@@ -683,7 +742,7 @@ func (e *c16Env) check(c *c16Ctx, cs *c16Case, o *c16Obs) {
 				left.Add(left, big.NewInt(1))
 			case "A:=0":
 				left.SetInt64(0)
-			case "XFER":
+			case "XFER", "XFERF":
 				left.Sub(left, big.NewInt(1))
 			}
 		}
@@ -697,6 +756,9 @@ func (e *c16Env) check(c *c16Ctx, cs *c16Case, o *c16Obs) {
 	if failed {
 		if o.ScoreVal != pre.ScoreVal || o.ScoreBal != pre.ScoreBal || o.OtherBal != pre.OtherBal {
 			fail("failed-tx-changed-observed-values", fmt.Sprintf("storage %q->%q scoreBal %s->%s otherBal %s->%s", pre.ScoreVal, o.ScoreVal, pre.ScoreBal, o.ScoreBal, pre.OtherBal, o.OtherBal))
+		}
+		if o.FreshBal != "<absent>" || o.FreshCxBal != "<absent>" || o.FreshCxVal != "<absent>" {
+			fail("failed-tx-created-fresh-account", fmt.Sprintf("fresh EOA balance=%s, fresh contract address balance=%s storage=%q (both must stay absent)", o.FreshBal, o.FreshCxBal, o.FreshCxVal))
 		}
 	}
 	// vacuity classes
@@ -714,8 +776,17 @@ func (e *c16Env) check(c *c16Ctx, cs *c16Case, o *c16Obs) {
 	if o.XferFail > 0 {
 		e.count("nested-real-transfer-failed")
 	}
-	if !failed && hasKind(surviving, "XFER") {
+	if !failed && (hasKind(surviving, "XFER") || hasKind(surviving, "XFERF")) {
 		e.count("nested-real-transfer-succeeded")
+	}
+	if scriptHas(cs.Script, "F+1") || scriptHas(cs.Script, "XFERF") || scriptHas(cs.Script, "GSET") {
+		if failed {
+			e.count("fresh-account-touched-then-tx-failed")
+		} else if hasKind(surviving, "F+1") || hasKind(surviving, "XFERF") || hasKind(surviving, "GSET") {
+			e.count("fresh-account-effect-survived")
+		} else {
+			e.count("fresh-account-touched-in-rolled-back-frame-of-successful-tx")
+		}
 	}
 	if o.StepFail {
 		e.count("ran-out-of-steps-in-place")
@@ -772,7 +843,7 @@ func (sh *c16Shape) build(prims []int, alphabet []string) *c16Script {
 func TestVerifC16(t *testing.T) {
 	r := ev.Start(t, "C16", "exploration")
 	maxT := r.Pick(3, 4)
-	r.Rule(fmt.Sprintf("all scripts with <= %d primitive actions in total from {A+1,A:=0,B+1,SET,DEL,EVT,BTP,STEP,XFER(nested real TransferHandler frame payer->B)} laid out as outer-before / one optional nested cc.Call frame / outer-after (every split), nested terminator and outer terminator each from {OK,REVERT(32),OOS(over-consume),INVALID,OOB(failing nested real transfer propagated)}, on 4 pre-state/transaction variants {payer balance = stepLimit*price | large} x {step limit large | small}; total = 4 (thorough only) on the two opposite variants; (quick: total <= 2 on all 4 variants, total = 3 on the first variant only and over {A:=0,SET,EVT,BTP,STEP,XFER}); a case = (variant, script); every case is a real signed call transaction executed by a real transition through transactionHandler/callContext/frames", maxT))
+	r.Rule(fmt.Sprintf("family 1 (scripted): all scripts with <= %d primitive actions in total from {A+1,A:=0,B+1,SET,DEL,EVT,BTP,STEP,XFER(nested real TransferHandler frame payer->existing B),F+1(direct credit of a FRESH EOA),XFERF(nested real transfer payer->the FRESH EOA),GSET(storage write on a FRESH contract address)} laid out as outer-before / one optional nested cc.Call frame / outer-after (every split), nested and outer terminator each from {OK,REVERT(32),OOS,INVALID,OOB}, on 4 variants {payer balance = stepLimit*price | large} x {step limit large | small}; total = 4 (thorough only) on the two opposite variants over {A:=0,B+1,SET,EVT,BTP,STEP,XFERF,F+1}; quick: total <= 1 on all variants, total = 2 on the two opposite variants, total = 3 on the first variant over {A:=0,SET,BTP,STEP,XFERF,F+1}. Family 2 (no scripted handler): real v3 transactions through the real handlers that fail after a partial effect, see real_tx_family in coverage. A case = (variant, script) or (variant, block); every case is executed by a real transition", maxT))
 	r.Assume("the designated contract address runs a scripted contract.SyncContractHandler installed through a ContractManager wrapper (FixtureConfig.NewPlatform); everything else is real",
 		"reference for the expected world: the same machinery executing, in ONE frame, exactly the effects of the frames that returned success (metamorphic); payer/treasury balances are compared explicitly and zeroed before hashing",
 		"which frames failed is known to the harness because its own handler returns the errors; step accounting, frame snapshot/reset, receipts are goloop's",
@@ -787,6 +858,21 @@ func TestVerifC16(t *testing.T) {
 			t.Fatalf("ctx: %v", err)
 		}
 		defer c.fn.Close()
+		if cs.Script == nil {
+			u := c.realUniverse()
+			ref, err := c.execReal(u, cs.Variant, nil)
+			if err != nil {
+				t.Fatalf("reference: %v", err)
+			}
+			r.Eval(1)
+			if o, err := c.execReal(u, cs.Variant, cs.Block); err != nil {
+				r.Violation("transition-failed", err.Error(), &cs)
+			} else {
+				env.checkReal(c, u, &cs, ref, o)
+			}
+			r.Finish(false)
+			return
+		}
 		r.Eval(1)
 		o, err := c.run(&cs)
 		if err != nil {
@@ -799,19 +885,28 @@ func TestVerifC16(t *testing.T) {
 	}
 
 	type chunk struct {
-		vi int
-		sh c16Shape
+		vi   int
+		sh   c16Shape
+		real bool
+		i1   int
 	}
 	var chunks []chunk
+	// family 2 first (cheap): variants 0 (payer large) and 1 (payer owns exactly 2M)
+	nReal, _ := c16RealTxs(0)
+	for vi := 0; vi < 2; vi++ {
+		for i1 := range nReal {
+			chunks = append(chunks, chunk{vi: vi, real: true, i1: i1})
+		}
+	}
 	for _, sh := range c16Shapes(maxT) {
 		for vi := range c16Variants {
-			if r.Quick() && sh.t == 3 && vi != 0 {
+			if r.Quick() && ((sh.t == 3 && vi != 0) || (sh.t == 2 && vi != 0 && vi != 3)) {
 				continue
 			}
 			if sh.t == 4 && vi != 0 && vi != 3 {
 				continue // thorough: total = 4 on the two opposite variants only
 			}
-			chunks = append(chunks, chunk{vi, sh})
+			chunks = append(chunks, chunk{vi: vi, sh: sh})
 		}
 	}
 	// short scripts first: a capped run has then seen every outcome class and all of total <= 3
@@ -848,9 +943,23 @@ func TestVerifC16(t *testing.T) {
 		}
 		defer func() { pool <- c }()
 		ch := chunks[ci]
+		if ch.real {
+			env.runRealChunk(c, ch.vi, ch.i1, r.Thorough(), func() bool {
+				if atomic.LoadInt32(&expired) != 0 || r.Expired() {
+					atomic.StoreInt32(&expired, 1)
+					return true
+				}
+				return false
+			})
+			atomic.AddInt64(&done, 1)
+			return
+		}
 		alphabet := c16Prims
 		if r.Quick() && ch.sh.t == 3 {
 			alphabet = c16PrimsQuick3
+		}
+		if ch.sh.t == 4 {
+			alphabet = c16PrimsDeep4
 		}
 		dims := make([]int, ch.sh.t)
 		for i := range dims {
@@ -905,12 +1014,28 @@ func TestVerifC16(t *testing.T) {
 	classes := map[string]int64{}
 	env.classes.Range(func(k, v interface{}) bool { classes[k.(string)] = atomic.LoadInt64(v.(*int64)); return true })
 	r.Set("outcome_classes", classes)
-	for _, need := range []string{"success", "nested-failed-outer-succeeded", "nested-succeeded-outer-failed", "nested-real-transfer-failed",
+	for _, need := range []string{"success", "nested-failed-outer-succeeded", "nested-succeeded-outer-failed", "nested-real-transfer-failed", "nested-real-transfer-succeeded",
+		"fresh-account-touched-then-tx-failed", "fresh-account-effect-survived", "fresh-account-touched-in-rolled-back-frame-of-successful-tx",
 		"ran-out-of-steps-in-place", "fee-rollback-after-successful-script",
 		fmt.Sprintf("failed:status-%d", module.StatusReverted), fmt.Sprintf("failed:status-%d", module.StatusOutOfStep),
 		fmt.Sprintf("failed:status-%d", module.StatusOutOfBalance), fmt.Sprintf("failed:status-%d", module.StatusInvalidParameter)} {
 		r.Sanity(classes[need] > 0, "class %q never occurred (%v)", need, classes)
 	}
+	withFresh := int64(0)
+	for k, v := range classes {
+		if strings.HasPrefix(k, "real:failed:") && strings.HasSuffix(k, "->freshEOA,value=true") {
+			withFresh += v
+		}
+	}
+	r.Sanity(classes[fmt.Sprintf("real:failed:status-%d->freshEOA,value=true", module.StatusContractNotFound)] > 0,
+		"family 2: no call-with-value to a fresh EOA failed with ContractNotFound (%v)", classes)
+	r.Sanity(classes["real:success->freshEOA"] > 0 && classes["real:success->existingEOA"] > 0, "family 2: no successful transfer (%v)", classes)
+	r.Set("real_tx_family", map[string]interface{}{
+		"cases":                          atomic.LoadInt64(&env.realCases),
+		"rule":                           "sender = payer (variants payer-large / payer owns exactly 2M); recipient in {fresh EOA, existing EOA, fresh cx address without contract, chain SCORE cx0}; dataType call x method {foo,getRevision} x value {0,1,5} x stepLimit {2M, default+input}; plain transfer and message x value {1, 2^90} x stepLimit {min-1 (message only), min, 2M}; blocks of one transaction, and blocks of two (thorough: all ordered pairs; quick: pairs of call transactions with the 2M limit)",
+		"oracle":                         "per receipt: failed => no logs / messages / empty bloom; balances of the whole closed universe {payer, existing EOA, fresh EOA, fresh cx, chain SCORE, scripted cx, treasury, god} = did-nothing block adjusted by fee (always) and value (only on success); a fresh account not credited by a successful transaction must not exist; full state hash with the universe's balances zeroed and BTP digest equal those of the did-nothing (empty) block",
+		"failed_with_value_to_fresh_EOA": withFresh,
+	})
 	r.Set("max_total_actions", maxT)
 	r.Set("chunks", len(chunks))
 	r.Set("chunks_completed", atomic.LoadInt64(&done))
